@@ -52,11 +52,11 @@ var c09Kinds = []string{"swap-cons", "deref", "reset", "swap-conj", "swap-wide",
 	"swap-reads-other", "swap-derefs-self", "swap-updates-other", "swap-resets-other", "gensym", "memo",
 	"deref-fn", "swap-extra-args", "swap-late-throw", "swap-derefs-self-wide", "swap-in-let", "reset-computed", "swap-bounded", "swap-extra-args3",
 	"swap-vec", "swap-list", "swap-conj-wide", "swap-panic", "swap-panic-params", "vswap-assoc", "vswap-assoc-throw", "vswap-assoc-wide", "vderef",
-	"vswap-update-selfread", "vswap-update-selfread-wide"}
+	"vswap-update-selfread", "vswap-update-selfread-wide", "print"}
 var c09Weights = []int{5, 4, 3, 2, 3, 1, 1, 2, 1, 2, 1, 1, 3,
 	2, 2, 1, 1, 1, 1, 3, 2,
 	2, 1, 2, 1, 1, 2, 1, 1, 1,
-	2, 1}
+	2, 1, 2}
 
 func atomName(i int) string { return "a" + strconv.Itoa(i) }
 
@@ -148,6 +148,9 @@ func (op *c09Op) build() {
 		src = "(swap! " + va + " update " + strconv.Itoa(op.Tok%3) + " (fn [x] (do (spin " + strconv.Itoa(op.Spin%9) + ") (h-begin " + id + ") (h-end " + id + " (deref " + va + ")) (spin 2) " + k + ")))"
 	case "vderef":
 		src = "@va" + strconv.Itoa(op.Atom)
+	case "print":
+		// printing an atom is a read of it
+		src = "(str " + a + ")"
 	case "gensym":
 		src = "(gensym)"
 	case "memo":
@@ -474,7 +477,7 @@ func (c09) Run(tp *Tape, opt RunOpt) *RunOut {
 			topOfTask[ev.Task] = op.Kind
 			r := &opRec{atom: op.Atom, call: ev.Seq, label: op.ID + " " + op.Src, topKind: op.Kind}
 			switch op.Kind {
-			case "deref", "deref-fn":
+			case "deref", "deref-fn", "print":
 				r.in = atomIn{Kind: "deref"}
 			case "reset", "reset-computed":
 				r.in = atomIn{Kind: "reset", Tok: strconv.Itoa(op.Tok)}
@@ -509,6 +512,9 @@ func (c09) Run(tp *Tape, opt RunOpt) *RunOut {
 			op := ops[ev.A]
 			r.ret = ev.Seq
 			r.out = ev.B
+			if op.Kind == "print" && strings.HasPrefix(ev.B, "\"«atom ") && strings.HasSuffix(ev.B, "»\"") {
+				r.out = strings.TrimSuffix(strings.TrimPrefix(ev.B, "\"«atom "), "»\"")
+			}
 			r.done = true
 			r.isErr = ev.N == 1
 			delete(topOfTask, ev.Task)
